@@ -72,7 +72,7 @@ CHECKS = {
         "rule. Assertion: a module is returned only if the reference accepts everything pulled up to END / end of "
         "stream and the module equals the reference's. One known finding (D35) is listed and its class skipped. "
         "Character level: ten constructs opened by concrete text (quoted string with either quote, comment, units, "
-        "sequence, set, also nested and inside a group) followed by EVERY tail of 0-2 (quick) / 0-4 characters that does "
+        "sequence, set, also nested and inside a group) followed by EVERY tail of 0-2 (quick) / 0-3 characters that does "
         "not close them: the load must raise. Outside: longer streams and tails.",
    ref='5 (C05)', technique='symbolic execution (symx) of the parsers over a lazily chosen symbolic token stream vs an independent recogniser; z3'),
  'C06': dict(
